@@ -12,9 +12,91 @@ def get_class(name):
   return quantizer_registry.lookup_quantizer(name)
 
 
+# Attributes the repository itself re-assigns on live quantizer objects (QAdaptiveActivation.build sets
+# bits / integer / alpha / symmetric / keep_negative / negative_slope; _set_trainable_parameter, called by
+# every Q layer, sets alpha and symmetric; quantized_linear documents its attributes as settable).  A
+# configuration reached that way is the same configuration as one passed to the constructor.
+MUTABLE = {
+    "quantized_bits": ("bits", "integer", "keep_negative", "symmetric", "alpha"),
+    # quantized_linear: bits / integer / keep_negative are read-only properties; `alpha` is listed as
+    # modifiable but a constant alpha assigned after construction does not reach quantization_scale
+    # (observation, DESIGN section 11) - only `symmetric` is re-assigned here
+    "quantized_linear": ("symmetric",),
+    "quantized_relu": ("bits", "integer", "negative_slope"),
+    "binary": ("alpha",), "ternary": ("alpha",),
+}
+ROUTES = {"n": 0, "fallback": 0}
+
+
+def _donor_value(attr, v, rnd):
+  if attr == "bits":
+    return v + rnd.choice([1, 2, 4]) if v < 3 or rnd.random() < 0.5 else v - rnd.choice([1, 2])
+  if attr == "integer":
+    return rnd.choice([i for i in (0, 1, 2, 3) if i != v])
+  if attr == "keep_negative":
+    return not v
+  if attr == "symmetric":
+    return 0 if v else 1
+  if attr == "alpha":
+    return rnd.choice([a for a in (None, 1.0, 2.0, 0.5) if a != v])
+  if attr == "negative_slope":
+    return 0.25 if not v else 0.0
+  raise ValueError(attr)
+
+
+def _warm(q, x=None):
+  """Use the object before it is modified, so that anything it caches is filled."""
+  try:
+    q(tf.constant(np.asarray([[-1.5, -0.3, 0.0, 0.2, 0.9, 3.0]] if x is None else x, dtype=np.float32)))
+  except Exception:      # pylint: disable=broad-except
+    pass
+  for name in ("max", "min", "range"):
+    try:
+      getattr(q, name)()
+    except Exception:    # pylint: disable=broad-except
+      pass
+
+
 def build(cfg):
+  """cfg["route"]: None / "ctor" - constructor arguments; "mutate" - built with other values for some
+  re-assignable attributes, used once, then assigned the target values; "trainable" - built with
+  alpha=None, used once, then `_set_trainable_parameter()` (target alpha must be "auto_po2")."""
   kw = dict(cfg["kw"])
-  return get_class(cfg["cls"])(**kw)
+  cls = get_class(cfg["cls"])
+  route = cfg.get("route")
+  if route == "mutate" and cfg["cls"] in MUTABLE:
+    import random as _random
+    rnd = _random.Random(cfg.get("seed", 0) * 1000003 + cfg.get("idx", 0))
+    # a data-dependent alpha is re-assigned only on binary / ternary, whose constructors derive nothing
+    # from it; quantized_bits' constructor also switches symmetric / freeze_scale for "auto*", which is
+    # what _set_trainable_parameter (route "trainable") repeats and a bare assignment does not
+    attrs = [a for a in MUTABLE[cfg["cls"]] if a in kw and
+             (not isinstance(kw[a], str) or cfg["cls"] in ("binary", "ternary"))]
+    pick = rnd.sample(attrs, rnd.randint(1, len(attrs))) if attrs else []
+    donor = dict(kw)
+    for a in pick:
+      donor[a] = _donor_value(a, kw[a] if not isinstance(kw[a], str) else None, rnd)
+    try:
+      q = cls(**donor)
+      _warm(q, cfg.get("warm"))
+      for a in pick:
+        setattr(q, a, kw[a])
+      ROUTES["n"] += 1
+      return q
+    except Exception:    # pylint: disable=broad-except
+      ROUTES["fallback"] += 1      # the donor configuration itself is not constructible
+      return cls(**kw)
+  if route == "trainable":
+    assert kw.get("alpha") == "auto_po2"
+    donor = dict(kw, alpha=None)
+    if "symmetric" in donor:
+      donor["symmetric"] = 0
+    q = cls(**donor)
+    _warm(q, cfg.get("warm"))
+    q._set_trainable_parameter()       # pylint: disable=protected-access
+    ROUTES["n"] += 1
+    return q
+  return cls(**kw)
 
 
 @contextlib.contextmanager
